@@ -198,7 +198,7 @@ def report(chk, recs, verdicts):
         for f in v['v']:
             if f['clause'].startswith('input.'):
                 raise core.MachineryError('T_C04 rejected a record as malformed: %r (%s)' % (f, rec['i']['txt']))
-            key = {'clause': f['clause'], 'group': f.get('group') or GROUPS.get(mn, 'mov'), 'mn': mn, 'sub': f.get('sub', '')}
+            key = {'clause': f['clause'], 'kind': f['clause'].split('.')[1], 'group': GROUPS.get(mn, 'mov'), 'mn': mn, 'sub': f.get('sub', '')}
             if mn in ('setcc', 'cmovcc', 'jcc'):
                 key['cc'] = rec['i']['cc']
             if f['clause'] == 'C04.lift':
